@@ -144,6 +144,42 @@ Theorem C08_pf_exact :
 Proof. exact pf_exact_thm. Qed.
 Print Assumptions C08_pf_exact.
 
+(* ---------------------------------------------------------------- continuing from a non-empty archive *)
+
+(* After a direct remove / insert, or after maxsize or the similarity operator was changed between
+   calls, the archive holds some members S.  If S is sorted, within the (new) capacity and pairwise
+   non-similar under the (new) operator, every later sequence of updates keeps the whole invariant
+   HInv (Proofs/C08_Hof.v: sorted, size, pairwise non-similar, members shown, best-of-seen,
+   all-when-room) with  seen = S ++ everything shown afterwards. *)
+Theorem C08_hof_continue :
+  forall (ind : Type) (fitness : ind -> list Z) (similar : ind -> ind -> bool),
+  (forall x y, similar x y = similar y x) ->
+  (forall x, similar x x = true) ->
+  forall (m : Z) (S : list ind) (batches : list (list ind)),
+  1 <= m -> desc ind fitness S -> zlen S <= m -> nosim ind similar S ->
+  (forall a b, In a (S ++ concat batches) -> In b (S ++ concat batches) -> similar a b = true -> fitness a = fitness b) ->
+  exists h, hof_run_from ind fitness similar m (mirror ind fitness S) batches = Some h /\
+    keys h = rev (map fitness (items h)) /\
+    HInv ind fitness similar m (items h) (S ++ concat batches).
+Proof. exact hof_continue_thm. Qed.
+Print Assumptions C08_hof_continue.
+
+(* the same for the Pareto archive: S mutually non-dominated, without twins, sorted; PInv
+   (Proofs/C08_Pf.v) = mutual non-domination, every shown individual dominated by or twin of a
+   member, members shown and undominated by anything shown, no twins, sorted *)
+Theorem C08_pf_continue :
+  forall (ind : Type) (fitness : ind -> list Z) (similar : ind -> ind -> bool),
+  (forall x y, similar x y = similar y x) ->
+  (forall x, similar x x = true) ->
+  forall (n : nat) (S : list ind) (batches : list (list ind)),
+  mutual ind fitness S -> notwin ind fitness similar S -> desc ind fitness S ->
+  all_len ind fitness n (S ++ concat batches) ->
+  exists h, pf_run_from ind fitness similar (mirror ind fitness S) batches = Some h /\
+    keys h = rev (map fitness (items h)) /\
+    PInv ind fitness similar (items h) (S ++ concat batches).
+Proof. exact pf_continue_thm. Qed.
+Print Assumptions C08_pf_continue.
+
 (* ---------------------------------------------------------------- deep copies *)
 
 (* Heap-level model (Model/C08_Heap.v): individuals are mutable objects in a store, populations and
